@@ -138,6 +138,12 @@ func genSignCase(t *core.Tape, uniq string, mods []string) *signCase {
 		c.File = "lib" + uniq + ".dll"
 		c.Input = append([]byte(nil), repoFixture("ClassLibrary1.dll")...)
 		copy(c.Input[0x400:], []byte("verif:"+uniq)) // inside .text raw data: digest becomes unique, structure untouched
+		if t.Chance(1, 3, "pe-overlay") {
+			// data appended after the last section (installers, self-extracting
+			// archives): the image size is then not a multiple of 8 and the
+			// certificate table is preceded by padding, which is part of what is signed
+			c.Input = append(c.Input, t.Bytes(1+t.Choose(23, "pe-overlay-len"), "pe-overlay-data")...)
+		}
 		if t.Chance(1, 2, "page-hashes") && (c.Hash == crypto.SHA1 || c.Hash == crypto.SHA256) {
 			c.Flags.Set("page-hashes", "true") // page hashes exist for SHA-1 and SHA-256 only
 		}
